@@ -876,3 +876,217 @@ Proof.
   - intros i Hi. assert (i = 0)%nat by lia. subst i. unfold kn. cbn. lra.
   - intros i Hi. assert (i = 0 \/ i = 1)%nat as [-> | ->] by lia; unfold kn; cbn; lra.
 Qed.
+
+
+From NV Require Import Proofs.HodographEnd.
+
+From NV Require Import Proofs.HodographEnd.
+Open Scope R_scope.
+
+(* ====================== hodograph objects, the leftovers (Proofs/HodographEnd.v) ======================
+   (paste below the HodographObj block of Props/C02.v; add `From NV Require Import Proofs.HodographEnd.` to the Require lines)
+   1. the CLOSED right end of the domain (curves) / the closed edges and corners (surfaces): HodographObj covers [U_p, U_n) only;
+   2. derivative_curve applied k times;  3. the normal computed from the hodograph surfaces.
+   The guards 2 <= p / derivative_curve_iter_code_returns / derivative_surface_code_returns delimit the inputs on which the real code
+   returns (known findings hodograph-curve-degree-1, hodograph-surface-degree-1, hodograph-surface-multiple-knot); the lemmas of
+   HodographEnd.v hold from degree 1 on (k <= p for the iteration) and without multiplicity guards (x/0 = 0 at the real instance). *)
+
+(* [G] every degree p >= 2, sorted knot vector, well-formed polygon.  (a) for EVERY u >= U_p - the half-open domain, its closed right
+   end u = U_n, and beyond (both evaluators then use the last span) - the point of the hodograph object is the first-derivative vector
+   of CurveEvaluator.derivatives at u; (b) if the last span is non-empty (e.g. a knot vector clamped at the end) the point of the
+   hodograph object at u = U_n is the LEFT derivative of the evaluated point of the input curve, coordinate-wise; (c) if moreover the
+   last p+1 knots are equal it is the end tangent p (P_{n-1} - P_{n-2}) / (U_n - U_{n-1}) *)
+Theorem C02_derivative_curve_closed_right_end : forall (U : list R) (P : list (list R)) (p dim : nat),
+  sortedR U -> wf_net P dim -> (2 <= p)%nat -> (p < length P)%nat -> length U = (length P + p + 1)%nat ->
+  forall p' U' Q, derivative_curve Rops p U P = (p', U', Q) ->
+  (forall u order, knR U p <= u -> (1 <= order)%nat ->
+     curve_point Rops dim p' U' Q u = nth 1 (curve_derivs Rops dim p U P u order) []) /\
+  (knR U (length P - 1) < knR U (length P) -> forall d, (d < dim)%nat ->
+     left_derivable_pt_lim (fun x => nth d (curve_point Rops dim p U P x) 0) (knR U (length P))
+                           (nth d (curve_point Rops dim p' U' Q (knR U (length P))) 0) /\
+     ((forall r, (r <= p)%nat -> knR U (length P + r) = knR U (length P)) ->
+      nth d (curve_point Rops dim p' U' Q (knR U (length P))) 0
+      = INR p * (coord P (length P - 1) d - coord P (length P - 2) d) / (knR U (length P) - knR U (length P - 1)))).
+Proof. intros U P p dim Hs Hw Hp. apply derivative_curve_object_closed_end; try assumption; lia. Qed.
+Print Assumptions C02_derivative_curve_closed_right_end.
+
+(* the inputs on which k successive calls of the real derivative_curve return: every differentiated stage has degree >= 2 (k <= p-1),
+   and then no denominator of A3.3 at any stage j < k (on that stage's own knot vector U[j:-j]) is zero *)
+Theorem C02_derivative_curve_iter_guard_means_no_zero_denominator : forall (k p : nat) (U : list R) (n : nat),
+  (p < n)%nat -> length U = (n + p + 1)%nat -> derivative_curve_iter_code_returns k p U n ->
+  forall j, (j < k)%nat -> (2 <= p - j)%nat /\
+  forall i, (i + 2 <= n - j)%nat -> knR (trim_n j U) (i + (p - j) + 1) - knR (trim_n j U) (i + 1) <> 0.
+Proof. exact iter_guard_no_zero_denominator. Qed.
+Print Assumptions C02_derivative_curve_iter_guard_means_no_zero_denominator.
+
+(* [G] higher hodographs: derivative_curve applied k times returns the curve of degree p-k on U[k:-k] (sorted, (n-k)+(p-k)+1 knots,
+   knot m = knot m+k of U) whose n-k control points are row k of helpers.curve_deriv_cpts (A3.3) called with deriv_order = k *)
+Theorem C02_derivative_curve_iter_is_valid_curve : forall (U : list R) (P : list (list R)) (p dim : nat),
+  sortedR U -> wf_net P dim -> (p < length P)%nat -> length U = (length P + p + 1)%nat ->
+  forall k, derivative_curve_iter_code_returns k p U (length P) ->
+  forall p' U' Q', derivative_curve_iter k (p, U, P) = (p', U', Q') ->
+  (p' = (p - k)%nat /\ U' = trim_n k U /\ Q' = nth k (curve_deriv_cpts Rops p U P 0 (Nat.pred (length P)) k) []) /\
+  length Q' = (length P - k)%nat /\ wf_net Q' dim /\ sortedR U' /\ length U' = (length Q' + p' + 1)%nat /\
+  (p' < length Q')%nat /\ (forall m, (m < length U')%nat -> knR U' m = knR U (k + m)).
+Proof. intros U P p dim Hs Hw Hp HL k (Hk & _). apply derivative_curve_iter_object_valid; try assumption; lia. Qed.
+Print Assumptions C02_derivative_curve_iter_is_valid_curve.
+
+(* [G] its evaluated point at every u >= U_p (half-open domain, closed right end, beyond) is the k-th derivative vector that
+   CurveEvaluator.derivatives returns for the ORIGINAL curve (any requested order >= k); on the half-open domain
+   = sum_i N^(k)_{i,p}(u) P_i (Eq. 2.9), and so is its Cox-de Boor sum *)
+Theorem C02_derivative_curve_iter_evaluates_to_kth_derivative : forall (U : list R) (P : list (list R)) (p dim : nat),
+  sortedR U -> wf_net P dim -> (p < length P)%nat -> length U = (length P + p + 1)%nat ->
+  forall k, derivative_curve_iter_code_returns k p U (length P) ->
+  forall p' U' Q', derivative_curve_iter k (p, U, P) = (p', U', Q') ->
+  (forall u order, knR U p <= u -> (k <= order)%nat ->
+     curve_point Rops dim p' U' Q' u = nth k (curve_derivs Rops dim p U P u order) []) /\
+  (forall u, knR U p <= u < knR U (length P) ->
+     length (curve_point Rops dim p' U' Q' u) = dim /\
+     (forall d, (d < dim)%nat -> nth d (curve_point Rops dim p' U' Q' u) 0 = curve_dk U p P k d u) /\
+     (forall d, (d < dim)%nat -> curve_def U' p' Q' d u = curve_dk U p P k d u)).
+Proof. intros U P p dim Hs Hw Hp HL k (Hk & _). apply derivative_curve_iter_object_value; try assumption; lia. Qed.
+Print Assumptions C02_derivative_curve_iter_evaluates_to_kth_derivative.
+
+(* [G] analytically: the point of the k-fold hodograph is a k-th iterated (limit-based) derivative of every coordinate of the curve
+   inside each knot span; one more call of derivative_curve differentiates it once more: two-sided inside the spans, from the right on
+   the half-open spans (so at knots), from the left at the closed right end of the domain *)
+Theorem C02_derivative_curve_iter_is_the_true_derivative : forall (U : list R) (P : list (list R)) (p dim : nat),
+  sortedR U -> wf_net P dim -> (p < length P)%nat -> length U = (length P + p + 1)%nat ->
+  forall k, derivative_curve_iter_code_returns k p U (length P) ->
+  forall p' U' Q', derivative_curve_iter k (p, U, P) = (p', U', Q') ->
+  forall d, (d < dim)%nat ->
+  (forall s, (p <= s < length P)%nat ->
+     kth_deriv_on (knR U s) (knR U (s + 1)) k (fun x => curve_def U p P d x) (fun x => nth d (curve_point Rops dim p' U' Q' x) 0)) /\
+  (forall p'' U'' Q'', (S k <= p)%nat -> derivative_curve Rops p' U' Q' = (p'', U'', Q'') ->
+     (forall s u, (p <= s < length P)%nat -> knR U s < u < knR U (s + 1) ->
+        derivable_pt_lim (fun x => nth d (curve_point Rops dim p' U' Q' x) 0) u (nth d (curve_point Rops dim p'' U'' Q'' u) 0)) /\
+     (forall s u, (p <= s < length P)%nat -> knR U s <= u < knR U (s + 1) ->
+        right_derivable_pt_lim (fun x => nth d (curve_point Rops dim p' U' Q' x) 0) u (nth d (curve_point Rops dim p'' U'' Q'' u) 0)) /\
+     (knR U (length P - 1) < knR U (length P) ->
+        left_derivable_pt_lim (fun x => nth d (curve_point Rops dim p' U' Q' x) 0) (knR U (length P))
+                              (nth d (curve_point Rops dim p'' U'' Q'' (knR U (length P))) 0))).
+Proof. intros U P p dim Hs Hw Hp HL k (Hk & _). apply derivative_curve_iter_object_true_derivative; try assumption; lia. Qed.
+Print Assumptions C02_derivative_curve_iter_is_the_true_derivative.
+
+(* [G] surfaces, the whole CLOSED domain (in fact every real (u, v)): the three objects returned by derivative_surface evaluate to the
+   entries [1][0], [0][1], [1][1] of SurfaceEvaluator.derivatives of the input surface - on the edges u = U_su, v = U_sv and at the
+   corner both sides are evaluated with the last span(s) *)
+Theorem C02_derivative_surface_evaluates_to_partials_closed : forall (Uu Uv : list R) (P : list (list R)) (pu pv su sv dim : nat),
+  sortedR Uu -> sortedR Uv -> wf_net P dim -> length P = (su * sv)%nat -> derivative_surface_code_returns pu pv Uu Uv su sv ->
+  (pu < su)%nat -> (pv < sv)%nat -> length Uu = (su + pu + 1)%nat -> length Uv = (sv + pv + 1)%nat ->
+  forall Su Sv Suv, derivative_surface Rops pu pv Uu Uv su sv P = (Su, Sv, Suv) ->
+  forall u v order, (1 <= order)%nat ->
+  let SKL := surface_derivs Rops dim pu pv Uu Uv su sv P u v order in
+  Su_point Uu Uv pu pv su sv dim Su u v = get3 SKL 1 0 /\ Sv_point Uu Uv pu pv su sv dim Sv u v = get3 SKL 0 1 /\
+  Suv_point Uu Uv pu pv su sv dim Suv u v = get3 SKL 1 1.
+Proof. intros Uu Uv P pu pv su sv dim H1 H2 H3 H4 (G1 & G2 & _). apply derivative_surface_points_closed; try assumption; lia. Qed.
+Print Assumptions C02_derivative_surface_evaluates_to_partials_closed.
+
+(* [G] one-sided partial derivatives in the u-direction; v is ANY parameter (in particular on the closed edge v = U_sv): S_u is the
+   u-partial of the evaluated point and S_uv the u-partial of S_v - two-sided inside a u-span, from the right on the half-open u-span,
+   from the LEFT at the closed edge u = U_su (last u-span non-empty, e.g. clamped) *)
+Theorem C02_derivative_surface_partials_u_closed : forall (Uu Uv : list R) (P : list (list R)) (pu pv su sv dim : nat),
+  sortedR Uu -> sortedR Uv -> wf_net P dim -> length P = (su * sv)%nat -> derivative_surface_code_returns pu pv Uu Uv su sv ->
+  (pu < su)%nat -> (pv < sv)%nat -> length Uu = (su + pu + 1)%nat -> length Uv = (sv + pv + 1)%nat ->
+  forall Su Sv Suv, derivative_surface Rops pu pv Uu Uv su sv P = (Su, Sv, Suv) ->
+  forall d v, (d < dim)%nat ->
+  (forall tu u, (pu <= tu < su)%nat -> knR Uu tu < u < knR Uu (tu + 1) ->
+     derivable_pt_lim (fun x => nth d (surface_point Rops dim pu pv Uu Uv su sv P x v) 0) u (nth d (Su_point Uu Uv pu pv su sv dim Su u v) 0) /\
+     derivable_pt_lim (fun x => nth d (Sv_point Uu Uv pu pv su sv dim Sv x v) 0) u (nth d (Suv_point Uu Uv pu pv su sv dim Suv u v) 0)) /\
+  (forall tu u, (pu <= tu < su)%nat -> knR Uu tu <= u < knR Uu (tu + 1) ->
+     right_derivable_pt_lim (fun x => nth d (surface_point Rops dim pu pv Uu Uv su sv P x v) 0) u (nth d (Su_point Uu Uv pu pv su sv dim Su u v) 0) /\
+     right_derivable_pt_lim (fun x => nth d (Sv_point Uu Uv pu pv su sv dim Sv x v) 0) u (nth d (Suv_point Uu Uv pu pv su sv dim Suv u v) 0)) /\
+  (knR Uu (su - 1) < knR Uu su ->
+     left_derivable_pt_lim (fun x => nth d (surface_point Rops dim pu pv Uu Uv su sv P x v) 0) (knR Uu su)
+                           (nth d (Su_point Uu Uv pu pv su sv dim Su (knR Uu su) v) 0) /\
+     left_derivable_pt_lim (fun x => nth d (Sv_point Uu Uv pu pv su sv dim Sv x v) 0) (knR Uu su)
+                           (nth d (Suv_point Uu Uv pu pv su sv dim Suv (knR Uu su) v) 0)).
+Proof.
+  intros Uu Uv P pu pv su sv dim H1 H2 H3 H4 (G1 & G2 & _) H5 H6 H7 H8 Su Sv Suv E d v Hd.
+  apply (derivative_surface_partials_u_closed Uu Uv P pu pv su sv dim); try assumption; lia.
+Qed.
+Print Assumptions C02_derivative_surface_partials_u_closed.
+
+(* [G] the same in the v-direction; u is ANY parameter (in particular on the closed edge u = U_su) *)
+Theorem C02_derivative_surface_partials_v_closed : forall (Uu Uv : list R) (P : list (list R)) (pu pv su sv dim : nat),
+  sortedR Uu -> sortedR Uv -> wf_net P dim -> length P = (su * sv)%nat -> derivative_surface_code_returns pu pv Uu Uv su sv ->
+  (pu < su)%nat -> (pv < sv)%nat -> length Uu = (su + pu + 1)%nat -> length Uv = (sv + pv + 1)%nat ->
+  forall Su Sv Suv, derivative_surface Rops pu pv Uu Uv su sv P = (Su, Sv, Suv) ->
+  forall d u, (d < dim)%nat ->
+  (forall tv v, (pv <= tv < sv)%nat -> knR Uv tv < v < knR Uv (tv + 1) ->
+     derivable_pt_lim (fun y => nth d (surface_point Rops dim pu pv Uu Uv su sv P u y) 0) v (nth d (Sv_point Uu Uv pu pv su sv dim Sv u v) 0) /\
+     derivable_pt_lim (fun y => nth d (Su_point Uu Uv pu pv su sv dim Su u y) 0) v (nth d (Suv_point Uu Uv pu pv su sv dim Suv u v) 0)) /\
+  (forall tv v, (pv <= tv < sv)%nat -> knR Uv tv <= v < knR Uv (tv + 1) ->
+     right_derivable_pt_lim (fun y => nth d (surface_point Rops dim pu pv Uu Uv su sv P u y) 0) v (nth d (Sv_point Uu Uv pu pv su sv dim Sv u v) 0) /\
+     right_derivable_pt_lim (fun y => nth d (Su_point Uu Uv pu pv su sv dim Su u y) 0) v (nth d (Suv_point Uu Uv pu pv su sv dim Suv u v) 0)) /\
+  (knR Uv (sv - 1) < knR Uv sv ->
+     left_derivable_pt_lim (fun y => nth d (surface_point Rops dim pu pv Uu Uv su sv P u y) 0) (knR Uv sv)
+                           (nth d (Sv_point Uu Uv pu pv su sv dim Sv u (knR Uv sv)) 0) /\
+     left_derivable_pt_lim (fun y => nth d (Su_point Uu Uv pu pv su sv dim Su u y) 0) (knR Uv sv)
+                           (nth d (Suv_point Uu Uv pu pv su sv dim Suv u (knR Uv sv)) 0)).
+Proof.
+  intros Uu Uv P pu pv su sv dim H1 H2 H3 H4 (G1 & G2 & _) H5 H6 H7 H8 Su Sv Suv E d u Hd.
+  apply (derivative_surface_partials_v_closed Uu Uv P pu pv su sv dim); try assumption; lia.
+Qed.
+Print Assumptions C02_derivative_surface_partials_v_closed.
+
+(* [G] non-rational surface, either evaluator family, every (u, v) at which the query returns: the two tangent vectors of
+   operations.tangent are the points of the hodograph surfaces S_u, S_v *)
+Theorem C02_tangent_surface_is_hodograph_points : forall (Uu Uv : list R) (P : list (list R)) (pu pv su sv dim : nat),
+  sortedR Uu -> sortedR Uv -> wf_net P dim -> length P = (su * sv)%nat -> derivative_surface_code_returns pu pv Uu Uv su sv ->
+  (pu < su)%nat -> (pv < sv)%nat -> length Uu = (su + pu + 1)%nat -> length Uv = (sv + pv + 1)%nat ->
+  forall Su Sv Suv, derivative_surface Rops pu pv Uu Uv su sv P = (Su, Sv, Suv) ->
+  forall normalize alg2 u v pt Tu Tv,
+  tangent_surface Rops normalize false alg2 dim pu pv Uu Uv su sv P u v = Ok (pt, Tu, Tv) ->
+  Tu = Su_point Uu Uv pu pv su sv dim Su u v /\ Tv = Sv_point Uu Uv pu pv su sv dim Sv u v /\
+  (forall d, (d < dim)%nat -> nth d pt 0 = nth d (surface_point Rops dim pu pv Uu Uv su sv P u v) 0).
+Proof.
+  intros Uu Uv P pu pv su sv dim H1 H2 H3 H4 (G1 & G2 & _) H5 H6 H7 H8 Su Sv Suv E normalize alg2 u v pt Tu Tv.
+  apply (tangent_surface_is_hodograph_points Uu Uv P pu pv su sv dim) with (Suv := Suv); try assumption; lia.
+Qed.
+Print Assumptions C02_tangent_surface_is_hodograph_points.
+
+(* [G] the normal of C02 computed from the hodograph surfaces, cross(S_u(u,v), S_v(u,v)), IS the vector operations.normal returns, and
+   so is the unit normal (unit_sq = linalg.vector_normalize, Rejected for a zero vector) *)
+Theorem C02_normal_from_hodograph_surfaces : forall (Uu Uv : list R) (P : list (list R)) (pu pv su sv dim : nat),
+  sortedR Uu -> sortedR Uv -> wf_net P dim -> length P = (su * sv)%nat -> derivative_surface_code_returns pu pv Uu Uv su sv ->
+  (pu < su)%nat -> (pv < sv)%nat -> length Uu = (su + pu + 1)%nat -> length Uv = (sv + pv + 1)%nat ->
+  forall Su Sv Suv, derivative_surface Rops pu pv Uu Uv su sv P = (Su, Sv, Suv) ->
+  forall normalize alg2 u v pt nv,
+  normal_surface Rops normalize false alg2 dim pu pv Uu Uv su sv P u v = Ok (pt, nv) ->
+  nv = cross Rops (Su_point Uu Uv pu pv su sv dim Su u v) (Sv_point Uu Uv pu pv su sv dim Sv u v) /\
+  unit_sq Rops nv = unit_sq Rops (cross Rops (Su_point Uu Uv pu pv su sv dim Su u v) (Sv_point Uu Uv pu pv su sv dim Sv u v)) /\
+  (forall d, (d < dim)%nat -> nth d pt 0 = nth d (surface_point Rops dim pu pv Uu Uv su sv P u v) 0).
+Proof.
+  intros Uu Uv P pu pv su sv dim H1 H2 H3 H4 (G1 & G2 & _) H5 H6 H7 H8 Su Sv Suv E normalize alg2 u v pt nv.
+  apply (normal_surface_is_hodograph_cross Uu Uv P pu pv su sv dim) with (Suv := Suv); try assumption; lia.
+Qed.
+Print Assumptions C02_normal_from_hodograph_surfaces.
+
+(* non-vacuity: a clamped quadratic curve with an interior knot - all hypotheses of the closed-end theorem hold and the hodograph object
+   evaluates at u = U_n = 1 to the end tangent 2 (P_3 - P_2) / (1 - 1/2) = (4, -4) *)
+Example C02_hodograph_end_hypotheses_satisfiable :
+  let U := [0;0;0;1/2;1;1;1] in let P := [[0;0];[1;2];[3;1];[4;0]] in
+  sortedR U /\ wf_net P 2 /\ (1 <= 2 < length P)%nat /\ length U = (length P + 2 + 1)%nat /\
+  knR U (length P - 1) < knR U (length P) /\ (forall r, (r <= 2)%nat -> knR U (length P + r) = knR U (length P)) /\
+  (forall p' U' Q, derivative_curve Rops 2 U P = (p', U', Q) ->
+     nth 0 (curve_point Rops 2 p' U' Q 1) 0 = 4 /\ nth 1 (curve_point Rops 2 p' U' Q 1) 0 = -4).
+Proof. exact hodograph_end_hypotheses_satisfiable. Qed.
+
+(* non-vacuity: a clamped cubic with an interior knot differentiated twice satisfies the guard; the result has degree 1, 3 control
+   points, 5 knots *)
+Example C02_hodograph_iter_hypotheses_satisfiable :
+  let U := [0;0;0;0;1/2;1;1;1;1] in let P := [[0;0];[1;2];[3;1];[4;0];[5;5]] in
+  sortedR U /\ wf_net P 2 /\ (3 < length P)%nat /\ length U = (length P + 3 + 1)%nat /\
+  derivative_curve_iter_code_returns 2 3 U (length P) /\
+  (forall p' U' Q', derivative_curve_iter 2 (3%nat, U, P) = (p', U', Q') -> p' = 1%nat /\ length Q' = 3%nat /\ length U' = 5%nat).
+Proof. exact hodograph_iter_hypotheses_satisfiable. Qed.
+
+(* non-vacuity: a biquadratic 3 x 4 surface satisfying the guard, both last spans non-empty *)
+Example C02_hodograph_surface_end_hypotheses_satisfiable :
+  let Uu := [0;0;0;1;1;1] in let Uv := [0;0;0;1/2;1;1;1] in
+  let P := [[0;0;0];[0;1;1];[0;2;0];[0;3;2]; [1;0;1];[1;1;3];[1;2;1];[1;3;0]; [2;0;0];[2;1;1];[2;2;2];[2;3;1]] in
+  sortedR Uu /\ sortedR Uv /\ wf_net P 3 /\ length P = (3 * 4)%nat /\ (1 <= 2 < 3)%nat /\ (1 <= 2 < 4)%nat /\
+  length Uu = (3 + 2 + 1)%nat /\ length Uv = (4 + 2 + 1)%nat /\
+  knR Uu (3 - 1) < knR Uu 3 /\ knR Uv (4 - 1) < knR Uv 4 /\ derivative_surface_code_returns 2 2 Uu Uv 3 4.
+Proof. exact hodograph_surface_end_hypotheses_satisfiable. Qed.
